@@ -116,7 +116,8 @@ def compare_run(ans, stat):
             diffs.append((n, x.split("=", 1)[1], y.split("=", 1)[1]))
     if len(fa) != len(fb):
         diffs.append(("layout", str(len(fa)), str(len(fb))))
-    return verdict, True, diffs, int(info.get("rejected", 0)), int(info.get("accepted", 0))
+    leaks = [x for x in info.get("leak", "-").split(",") if x and x != "-"]
+    return verdict, True, diffs, int(info.get("rejected", 0)), int(info.get("accepted", 0)), leaks
 
 
 def run(ck):
@@ -158,7 +159,9 @@ def run(ck):
     rejected_total = 0
     accepted_total = 0
     with_rejections = 0
-    failing = {}       # field -> smallest failing history
+    failing = {}       # unexplained differences: smallest failing history
+    leaked = {}        # field -> smallest history after which it holds a value of a rejected attempt
+    runs_differing = 0
     distinct = set()
     for r, a in zip(runs, rout):
         res = compare_run(a, stat)
@@ -173,20 +176,34 @@ def run(ck):
         accepted_total += res[4]
         with_rejections += res[3] > 0
         distinct.add((r["dyn"], r["acceleration"], r["ppolicy"], min(res[3], 5), min(res[4], 8), r["integration_points"]))
-        for n, va, vb in res[2]:
-            old = failing.get(n)
+        hist_key = {k: r[k] for k in ("dyn", "mSub", "iterMax", "ppolicy", "acceleration", "integration_points", "times",
+                                      "minTs", "maxTs", "minF", "maxF")}
+        for n in res[5]:
+            # tag run: the readable field n still holds a value written by a rejected attempt after `revert`
+            old = leaked.get(n)
             if old is None or res[3] + res[4] < old["attempts"]:
-                failing[n] = {"field": n, "with_rejections": va, "accepted_steps_only": vb, "attempts": res[3] + res[4],
-                              "rejected": res[3], "accepted": res[4], "request": r["line"],
-                              "history": {k: r[k] for k in ("dyn", "mSub", "iterMax", "ppolicy", "acceleration",
-                                                            "integration_points", "times", "minTs", "maxTs", "minF", "maxF")},
-                              "script_prefix": r["script"][:res[3] + res[4]]}
+                leaked[n] = {"field": n, "attempts": res[3] + res[4], "rejected": res[3], "accepted": res[4],
+                             "what": "at the beginning of the attempt that follows a rejected one, the field still holds the "
+                                     "value written by the rejected attempt", "request": r["line"], "history": hist_key,
+                             "script_prefix": r["script"][:res[3] + res[4]],
+                             "final_state_differences_with_the_run_of_the_accepted_steps": [
+                                 {"field": a_, "with_rejections": b_, "accepted_steps_only": c_} for a_, b_, c_ in res[2][:8]]}
+        if res[2] and not res[5]:
+            old = failing.get("diff")
+            if old is None or res[3] + res[4] < old["attempts"]:
+                failing["diff"] = {"fields": [x[0] for x in res[2]], "attempts": res[3] + res[4], "rejected": res[3],
+                                   "accepted": res[4], "request": r["line"], "history": hist_key,
+                                   "script_prefix": r["script"][:res[3] + res[4]],
+                                   "differences": [{"field": a_, "with_rejections": b_, "accepted_steps_only": c_}
+                                                   for a_, b_, c_ in res[2][:12]]}
+        if res[2]:
+            runs_differing += 1
 
     def search(_failure=None):
-        if not failing:
+        cands = list(leaked.values()) + list(failing.values())
+        if not cands:
             return None
-        n = sorted(failing, key=lambda k: failing[k]["attempts"])[0]
-        return failing[n]
+        return sorted(cands, key=lambda x: x["attempts"])[0]
 
     # 2. theorems on the regenerated record
     res = ck.lean(PROPS, PROPS)
@@ -196,10 +213,24 @@ def run(ck):
             ck.violation("leanchecker:" + m, "leanchecker rejects " + m, {"log": msg}, False)
 
     # the property on the implementation
-    for n, rep in sorted(failing.items()):
-        ck.violation(site_of(n, d), "after a run with %d rejected attempts the field %s differs from the run of the %d "
-                     "accepted steps only (%s vs %s)" % (rep["rejected"], n, rep["accepted"], rep["with_rejections"],
-                                                         rep["accepted_steps_only"]), rep, True)
+    many = len(leaked) > 4
+    for n, rep in sorted(leaked.items()):
+        if many:
+            break
+        ck.violation(site_of(n, d), "a rejected attempt leaves a trace: after revert the field %s (read by the next attempt) "
+                     "still holds the value written by the rejected attempt (history: %d rejected, %d accepted attempts)"
+                     % (n, rep["rejected"], rep["accepted"]), rep, True)
+    if many:
+        rep = sorted(leaked.values(), key=lambda x: x["attempts"])[0]
+        rep = dict(rep)
+        rep["fields"] = sorted(leaked)
+        ck.violation("mtest/src/GenericSolver.cxx:execute:revert", "a rejected attempt leaves a trace in %d fields (%s ...): "
+                     "the state is not reverted" % (len(leaked), ", ".join(sorted(leaked)[:6])), rep, True)
+    if "diff" in failing:
+        rep = failing["diff"]
+        ck.violation("mtest/src/GenericSolver.cxx:execute:final-state", "after a run with %d rejected attempts the final state "
+                     "differs from the run of the %d accepted steps only (fields %s)" % (rep["rejected"], rep["accepted"],
+                                                                                        rep["fields"][:6]), rep, True)
 
     # 3. correspondence record <-> classes
     reqs = []
@@ -253,7 +284,8 @@ def run(ck):
         "evaluations": len(reqs) + len(runs), "distinct_nontrivial": len(distinct) + sum(1 for _ in itertools.chain.from_iterable(
             itertools.product("sruf", repeat=L) for L in range(0, 5))),
         "rule": "rv requests = every sequence of at most 4 operations over {scribble, revert, update, deep copy} on 2-4 container shapes, plus seeded longer ones (distinct = the sequences; each exercises a different composition of the translated statements); run requests = seeded failure scripts (distinct = (mode, acceleration algorithm, prediction, #rejected bucket, #accepted bucket, #integration points) classes observed among the compared runs)",
-        "exhaustive": False, "disagreements": disagreements + len(failing),
+        "exhaustive": False, "disagreements": disagreements + runs_differing,
+        "fields_found_holding_a_rejected_attempt_value": sorted(leaked),
         "traces_validated_against_impl": len(reqs),
         "runs_compared_with_direct_run": compared, "runs_with_at_least_one_rejection": with_rejections,
         "rejected_attempts_total": rejected_total, "accepted_steps_total": accepted_total,
